@@ -678,11 +678,17 @@ func (up4 *UP4) getGTPTunnelPeer(tnlParams tunnelParams) (tunnelPeer, bool) {
 	return tnlPeer, exists
 }
 
-func (up4 *UP4) addOrUpdateGTPTunnelPeer(far far) error {
+// addOrUpdateGTPTunnelPeer makes the FAR a user of the tunnel peer of its gNB, creating the peer
+// if need be. It reports whether the FAR's reference is a new one, so that a request that fails
+// later on can give back exactly what it acquired.
+func (up4 *UP4) addOrUpdateGTPTunnelPeer(far far) (bool, error) {
 	up4.tunnelPeerMu.Lock()
 	defer up4.tunnelPeerMu.Unlock()
 
 	var tnlPeer tunnelPeer
+
+	ref := tnlPeerReference{far.fseID, far.farID}
+	added := true
 
 	methodType := p4.Update_MODIFY
 	tunnelParameters := tunnelParams{
@@ -695,14 +701,12 @@ func (up4 *UP4) addOrUpdateGTPTunnelPeer(far far) error {
 	if !exists {
 		newID, err := up4.unsafeAllocateGTPTunnelPeerID()
 		if err != nil {
-			return err
+			return false, err
 		}
 
 		tnlPeer = tunnelPeer{
-			id: newID,
-			usedBy: set.NewSet(tnlPeerReference{
-				far.fseID, far.farID,
-			}),
+			id:     newID,
+			usedBy: set.NewSet(ref),
 		}
 
 		methodType = p4.Update_INSERT
@@ -710,31 +714,32 @@ func (up4 *UP4) addOrUpdateGTPTunnelPeer(far far) error {
 		// tunnel peer already exists.
 		// since we use Set to keep track of tunnel peers in use,
 		// it will not be added to the set if tunnel peer was already created for this UE session.
-		tnlPeer.usedBy.Add(tnlPeerReference{
-			far.fseID, far.farID,
-		})
+		added = tnlPeer.usedBy.Add(ref)
 	}
 
 	releaseTnlPeerID := func() {
 		if !exists {
-			up4.unsafeReleaseAllocatedGTPTunnelPeer(tunnelParameters)
+			// the new peer is not registered yet: its ID goes straight back to the pool
+			up4.tunnelPeerIDsPool = append(up4.tunnelPeerIDsPool, tnlPeer.id)
+		} else if added {
+			tnlPeer.usedBy.Remove(ref)
 		}
 	}
 
 	gtpTunnelPeerEntry, err := up4.p4RtTranslator.BuildGTPTunnelPeerTableEntry(tnlPeer.id, tunnelParameters)
 	if err != nil {
 		releaseTnlPeerID()
-		return err
+		return false, err
 	}
 
 	if err := up4.p4client.ApplyTableEntries(methodType, gtpTunnelPeerEntry); err != nil {
 		releaseTnlPeerID()
-		return err
+		return false, err
 	}
 
 	up4.tunnelPeerIDs[tunnelParameters] = tnlPeer
 
-	return nil
+	return added, nil
 }
 
 func (up4 *UP4) removeGTPTunnelPeer(far far) {
@@ -1011,7 +1016,7 @@ func (up4 *UP4) updateTunnelPeersBasedOnFARs(fars []far) error {
 		logger := logger.PfcpLog.With("far", far)
 		// downlink FAR with tunnel params that does encapsulation
 		if far.Forwards() && far.dstIntf == ie.DstInterfaceAccess && far.tunnelTEID != 0 {
-			if err := up4.addOrUpdateGTPTunnelPeer(far); err != nil {
+			if _, err := up4.addOrUpdateGTPTunnelPeer(far); err != nil {
 				logger.Errorf("failed to add or update GTP tunnel peer: %v", err)
 				return err
 			}
